@@ -581,5 +581,11 @@ PROPS["C15"]["explanation"] += (" c15l2: exactly min(tries, negotiated channel_m
     "against make_tune_ok of the model and, independently, against the documented rule (0 = no limit, else the smaller).")
 PROPS["C15"]["trusted_base"] = PROPS["C15"]["trusted_base"] + L2_TRUSTED
 
+# C09's "the id can be opened again": the same boundary-id / server-close / re-open mix as C10
+PROPS["C09"]["check_mods"].append("CoreMix")
+PROPS["C09"]["drivers"].append({"name": "c10core", "n_quick": 160, "n_thorough": 8000, "timeout": 3000})
+PROPS["C09"]["rule"] += (" Re-use after a server close (c10core, see C10): small and maximal channel_max, channels "
+    "closed by the server, re-opened explicitly and automatically until the ids run out.")
+
 # properties not claimed, with the reason (kept current)
 NOT_APPLICABLE = {}
